@@ -106,9 +106,44 @@ def jobs_for(n, cyclic, nmax=8):
     return j
 
 
+def diagonal_job(n):
+    """DiagonalSolver<T>::solveInPlace (the line solver of the extrapolated smoothers' coarse lines): x_i * d_i == b_i"""
+    rules, hashes = Rules("C14"), {}
+    src = Src.get("include/LinearAlgebra/diagonalSolver.h")
+    for occ in (0, 1):
+        f = src.function("DiagonalSolver<T>::diagonal", occurrence=occ)
+        if "".join(f["body"].split()) != "assert(index>=0);assert(index<this->matrix_dimension_);returnthis->diagonal_values_[index];":
+            raise ExtractError("DiagonalSolver::diagonal changed")
+    f = src.function("DiagonalSolver<T>::solveInPlace", must_params=["sol_rhs"])
+    hashes["DiagonalSolver::solveInPlace"] = sha(f["body"])
+    body = common_body_rewrites(f["body"], rules, "R")
+    c = [units.PRELUDE_R,
+         "#define diagonal(i) diagonal_values_[(__CPROVER_assert((i) >= 0, \"source assert: index >= 0\"), __CPROVER_assert((i) < matrix_dimension_, \"source assert: index < matrix_dimension_\"), (i))]",
+         "static int matrix_dimension_; static real_t diagonal_values_[%d], sol_rhs[%d];   /* R3: the T* parameter denotes the file-scope array */" % (n, n),
+         "static void solveInPlace(void)\n{%s}\n" % body,
+         "static real_t D[%d], B[%d], X1[%d];" % (n, n, n), "void harness(void) {", "  matrix_dimension_ = %d;" % n]
+    for i in range(n):
+        c.append("  D[%d] = nondet_real(); B[%d] = nondet_real(); __CPROVER_assume(D[%d] != 0); diagonal_values_[%d] = D[%d]; sol_rhs[%d] = B[%d];" % ((i,) * 7))
+    c.append("  solveInPlace();")
+    for i in range(n):
+        c.append("  __CPROVER_assert(D[%d] * sol_rhs[%d] == B[%d], \"OBL:diagonal_solve_A_x_equals_b[row=%d]\");" % (i, i, i, i))
+        c.append("  __CPROVER_assert(diagonal_values_[%d] == D[%d], \"OBL:diagonal_solver_matrix_unchanged[row=%d]\");" % (i, i, i))
+    for i in range(n):
+        c.append("  X1[%d] = sol_rhs[%d]; sol_rhs[%d] = B[%d];" % (i, i, i, i))
+    c.append("  solveInPlace();")
+    for i in range(n):
+        c.append("  __CPROVER_assert(sol_rhs[%d] == X1[%d], \"OBL:diagonal_repeated_solve_identical[row=%d]\");" % (i, i, i))
+    c += ["  __CPROVER_assert(D[0] != D[0], \"COVER:reached_end\");", "}"]
+    j = Job("C14.diagonal[n=%d]" % n, "\n".join(c), "R", unwind=n + 2, timeout=300,
+            bounded="matrix dimension fixed n=%d; entries and right-hand side symbolic reals" % n,
+            functions=["DiagonalSolver::solveInPlace", "DiagonalSolver::diagonal"], covers={"COVER:reached_end"}, extra=["--no-div-by-zero-check"])
+    j.rules, j.hashes = rules, hashes
+    return j
+
+
 def build_jobs(tier, seed):
     ns = (2, 3, 4, 5) if tier == "quick" else (2, 3, 4, 5, 6, 7)
-    return [jobs_for(n, cyc) for n in ns for cyc in (0, 1)]
+    return [jobs_for(n, cyc) for n in ns for cyc in (0, 1)] + [diagonal_job(n) for n in ((1, 4) if tier == "quick" else (1, 2, 4, 8))]
 
 
 EXPLANATION = (
@@ -117,7 +152,7 @@ EXPLANATION = (
     "matrix the caller stored (cyclic case by Sherman-Morrison, n == 2 and n == 3 included), factorized_ set, a second solve with the "
     "same right-hand side returns the identical vector, every accessor assert and array bound. Inputs are restricted to those whose "
     "stored pivots / Sherman-Morrison denominators are non-zero (holds for every SPD matrix: textbook, not checked). Complete in "
-    "data, BOUNDED in n. Backward stability (rounding) not decided; DiagonalSolver not covered.")
+    "data, BOUNDED in n. DiagonalSolver::solveInPlace: d_i x_i == b_i, matrix unchanged, repeated solve identical. Backward stability (rounding) not decided.")
 
 
 def tridiag_replay_cb(job, key, label, rec):
